@@ -52,6 +52,10 @@ def repr_string(string: str, indent: int = 0, prefer_single_qoute: bool = False)
     if "\n" not in string:
         # Single line string
         return f"{preferred_quote}{escape_quotes(string, which_quotes=preferred_quote)}{preferred_quote}"
+    if all(line.startswith(" ") for line in string.split("\n")):
+        # All lines are indented. In a multi line literal this common indentation would be taken as the indentation
+        # of the literal and be removed. We fall back to the single line string representation.
+        return f"{preferred_quote}{escape_newlines(escape_quotes(string, which_quotes=preferred_quote))}{preferred_quote}"
     if preferred_multiline_quote in string:
         if secondary_multiline_quote in string:
             # uh oh... We can't properly handle this at the moment. We fall back to single line string representation.
